@@ -69,6 +69,7 @@ import (
 	"encoding/json"
 	"fmt"
 	"os"
+	"runtime"
 	"runtime/debug"
 	"sort"
 	"strconv"
@@ -134,7 +135,7 @@ type Driver interface {
 	// NewCtx returns a fresh per-request context (variables + buffer pool context).
 	NewCtx() context.Context
 	// Prepare does what cluster manager's ConnPoolForCluster does before handing the pool
-	// to the proxy: poll CheckAndInit (at most 3 polls here), waiting for the pool's own
+	// to the proxy: poll CheckAndInit (at most 4 polls here, 16 in the cluster manager), waiting for the pool's own
 	// goroutines between polls. false = "no healthy host".
 	Prepare(pool types.ConnectionPool, ctx context.Context) (bool, error)
 	RequestHeaders(ctx context.Context) api.HeaderMap
@@ -148,6 +149,13 @@ type Driver interface {
 	Books(pool types.ConnectionPool) Books
 	// Quiesce waits until the pool's own goroutines (multiplex init / Shutdown) are done.
 	Quiesce(pool types.ConnectionPool, shutdownRequested bool) error
+	// SelfDeadlock is given the stack of the goroutine applying an event when that goroutine is
+	// blocked on a lock; it returns a non-empty description iff the frames prove a self-deadlock
+	// (the goroutine waits for a lock that one of its own outer frames holds). nil-able: a driver
+	// whose events cannot block returns "" always. The engine runs events on a watched goroutine
+	// only if Guarded() is true.
+	SelfDeadlock(stack string) string
+	Guarded() bool
 }
 
 // ---------------------------------------------------------------------------
@@ -228,9 +236,10 @@ type world struct {
 	pool     types.ConnectionPool
 	conns    []*connT
 	streams  []*strmT
-	ext      int  // request slots of the cluster held by "other pools" (environment)
-	shutdown bool // pool.Shutdown() was called
-	poisoned bool // async pools: a stream was leased on a connection nobody reads; no event can be applied safely any more
+	ext      int    // request slots of the cluster held by "other pools" (environment)
+	shutdown bool   // pool.Shutdown() was called
+	poisoned bool   // a stream was leased on a connection nobody reads (async pools) or an event self-deadlocked: no event can be applied safely any more
+	deadlock string // description of the self-deadlock the last event ran into
 	base     [4]int64
 	herr     string
 	lease    []finding // lease-time violations of the last event
@@ -521,12 +530,108 @@ func (w *world) apply(ev string) (outcome string) {
 
 // step applies one event and waits for the pool's own goroutines.
 func (w *world) step(ev string) string {
-	out := w.apply(ev)
+	var out string
+	if w.d.Guarded() {
+		if dl := w.guarded(func() { out = w.apply(ev) }); dl != "" {
+			// the goroutine applying the event is stuck for ever inside the code under test (and is
+			// leaked); this world must not be touched any more
+			w.deadlock = dl
+			w.poisoned = true
+			return "self-deadlock"
+		}
+		if w.herr != "" {
+			return out
+		}
+	} else {
+		out = w.apply(ev)
+	}
 	if err := w.d.Quiesce(w.pool, w.shutdown); err != nil {
 		w.harness("after %q: %v", ev, err)
 	}
 	w.syncConns()
 	return out
+}
+
+// guarded runs f on a watched goroutine. It returns "" when f returned. If the goroutine blocks on
+// a lock and the driver proves from its frames that it is a self-deadlock, the description is
+// returned (exact, no wall-clock judgement: the goroutine waits for a lock held by its own outer
+// frame). Any other long block is a harness error (timeout).
+func (w *world) guarded(f func()) string {
+	done := make(chan struct{})
+	var gid string
+	ready := make(chan struct{})
+	go func() {
+		defer close(done)
+		gid = goid()
+		close(ready)
+		defer func() {
+			if r := recover(); r != nil {
+				w.harness("panic in event: %v\n%s", r, debug.Stack())
+			}
+		}()
+		f()
+	}()
+	<-ready
+	start := time.Now()
+	for n := 0; ; n++ {
+		select {
+		case <-done:
+			return ""
+		default:
+		}
+		if n < 2000 {
+			runtime.Gosched()
+			continue
+		}
+		select {
+		case <-done:
+			return ""
+		case <-time.After(200 * time.Microsecond):
+		}
+		st := stackOf(gid)
+		if blockedOnLock(st) {
+			if d := w.d.SelfDeadlock(st); d != "" {
+				return d
+			}
+		}
+		if time.Since(start) > waitTimeout {
+			w.harness("timeout (%v): the goroutine applying the event is blocked:\n%s", waitTimeout, st)
+			w.poisoned = true
+			return "harness-timeout"
+		}
+	}
+}
+
+func goid() string {
+	buf := make([]byte, 64)
+	buf = buf[:runtime.Stack(buf, false)]
+	// "goroutine 123 [running]:"
+	f := strings.Fields(string(buf))
+	if len(f) >= 2 {
+		return f[1]
+	}
+	return ""
+}
+
+func stackOf(gid string) string {
+	buf := make([]byte, 1<<20)
+	buf = buf[:runtime.Stack(buf, true)]
+	for _, g := range strings.Split(string(buf), "\n\n") {
+		if strings.HasPrefix(g, "goroutine "+gid+" ") {
+			return g
+		}
+	}
+	return ""
+}
+
+func blockedOnLock(st string) bool {
+	i := strings.IndexByte(st, '[')
+	j := strings.IndexByte(st, ']')
+	if i < 0 || j < i {
+		return false
+	}
+	state := st[i+1 : j]
+	return strings.HasPrefix(state, "sync.") || strings.HasPrefix(state, "semacquire")
 }
 
 // sweepClosed ends the model's streams on connections the pool closed itself.
@@ -687,6 +792,9 @@ func (w *world) enabled() []string {
 
 // cleanup closes every connection so that reader goroutines (HTTP/1) exit.
 func (w *world) cleanup() {
+	if !w.d.Async() {
+		return // no per-connection goroutines to release
+	}
 	for _, fc := range vfake.Created {
 		if !fc.IsClosed() {
 			fc.Close(api.NoFlush, api.LocalClose)
@@ -942,6 +1050,20 @@ func runHistory(d Driver, cfg Cfg, hist []string, probe int) (res result) {
 		res.outcome = w.step(ev)
 		if w.herr != "" {
 			res.harness = fmt.Sprintf("history %v, event %d (%s): %s", hist, i, ev, w.herr)
+			return
+		}
+		if w.deadlock != "" {
+			if i != len(hist)-1 {
+				res.harness = fmt.Sprintf("history %v continues after event %d (%s) self-deadlocked", hist, i, ev)
+				return
+			}
+			cls := eventClass(ev, "self-deadlock")
+			res.outcome = cls
+			res.findings = append(res.findings, finding{"pool=" + d.Name() + " " + w.deadlock + " [at " + eventClass(ev, "") + "]",
+				fmt.Sprintf("the goroutine applying event %q blocked for ever inside the pool/stream code: %s", ev, w.deadlock)})
+			res.canon = fmt.Sprintf("SELF-DEADLOCK|%s|%d", w.deadlock, len(hist)) // terminal, never merged with a live state
+			res.poisoned, res.dirty = true, true
+			w = nil // never touch (or clean up) the stuck world
 			return
 		}
 	}
